@@ -73,7 +73,7 @@ TAlign == /\ Running /\ CurOp.op = "align" /\ padleft = -1
 TAlignSilent == /\ Running /\ CurOp.op = "align" /\ padleft = -1 /\ Kept("align") /\ woff = 0
                 /\ CurOp.unit > 0 /\ PadTo(pos, CurOp.unit) = 0
                 /\ Quiet(DoAlignStart)
-TAlignNoop == /\ Kept("align") /\ HasEv("align") /\ woff = 0 /\ Ev.after = Ev.pos
+TAlignNoop == /\ Kept("align") /\ HasEv("align") /\ woff = 0 /\ Ev.unit > 0 /\ PadTo(Ev.pos, Ev.unit) = 0
               /\ l' = l + 1 /\ UNCHANGED <<serVars, tcase, silentOk, woff, keep>>
 \* write_bytes announces the block (row pushed before the write): no machine step yet, the write follows
 TBlock == /\ Kept("block") /\ HasEv("block") /\ Running /\ CurOp.op = "block" /\ woff = 0
